@@ -980,6 +980,11 @@ class Cov(Reduction):
             "cols": self.frame.columns,
         }
 
+    def _simplify_up(self, parent, dependents):
+        # Every input column is also a row of the result: a selection of
+        # columns of the result still needs all of them
+        return
+
 
 class Corr(Cov):
     corr = True
